@@ -450,7 +450,10 @@ def run(tier):
 
     # ---- the serialisation as grouping / join KEY (data.py): a value and the STRING spelling its JSON text are different keys
     key_pairs = [("1", "'1'"), ("null", "'null'"), ("true", "'true'"), ("arrayNew(1, 2)", "'[1,2]'"), ("objectNew('a', 1)", "'{" + '"a"' + ":1}'"),
-                 ("'a'", "'" + '"a"' + "'"), ("1.5", "'1.5'"), ("0", "false"), ("''", "'" + '""' + "'")]
+                 ("'a'", "'" + '"a"' + "'"), ("1.5", "'1.5'"), ("0", "false"), ("''", "'" + '""' + "'"),
+                 # different numbers that agree in their first 12 and more significant digits are different keys
+                 ("1700000000001", "1700000000002"), ("4503599627370497", "4503599627370498"), ("0.1 + 0.2", "0.3"),
+                 ("1.5e+300", "1.5000000000001e+300"), ("1e-7", "1.00000000000001e-7"), ("123456789012.25", "123456789012.5")]
     ksrc = ["left = arrayNew(" + ", ".join(f"objectNew('k', {a}, 'v', {i})" for i, (a, _) in enumerate(key_pairs)) + ")",
             "right = arrayNew(" + ", ".join(f"objectNew('k', {b}, 'w', {i})" for i, (_, b) in enumerate(key_pairs)) + ")",
             "jj = dataJoin(left, right, 'k', null, true)",
